@@ -209,6 +209,35 @@ def instants(ctx):
                         ctx.nontriv((repr(vals[i]), repr(vals[j]), mname, wname, repr(default)))
 
 
+def text_spellings(ctx):
+    """texts that are different to == but close in spelling: canonically equivalent Unicode forms (composed / decomposed, compatibility signs), code points no codec
+    can encode (lone surrogates) next to the replacement characters a lenient encoder would write; as leaves, items, keys, values, set members, in every mode"""
+    from deepdiff import DeepHash
+    texts = ['caf\u00e9', 'cafe\u0301', '\u00c5', 'A\u030a', '\u212b', '\uac00', '\u1100\u1161', '\u03a9', '\u2126', 'q\u0307\u0323', 'q\u0323\u0307', '\ufb01', 'fi',
+             'a\ud800', 'a\udc00', 'a\udfff', 'a?', 'a\ufffd', '\ud800', '?', 'x\udcffy', 'x?y']
+    vals = texts + [t.encode('utf-8') for t in texts if not any(0xd800 <= ord(c) <= 0xdfff for c in t)]
+    wraps = [('leaf', lambda v: v), ('item', lambda v: [v, 1]), ('value', lambda v: {'k': v}), ('key', lambda v: {v: 1}), ('member', lambda v: {v, 0}), ('nested', lambda v: ({'a': [(v,)]},))]
+    for mname in CLAIMED:
+        rep, order = HS.MODES[mname]
+        kw = dict(ignore_repetition=rep, ignore_iterable_order=order)
+        for wname, wrap in wraps:
+            hs = []
+            for v in vals:
+                w = wrap(v)
+                try:
+                    hs.append(DeepHash(w, **kw)[w])
+                except Exception as e:
+                    hs.append('raised %s %r' % (type(e).__name__, v))          # no digest at all: cannot collide
+            for i, j in itertools.combinations(range(len(vals)), 2):
+                if type(vals[i]) is not type(vals[j]):
+                    continue
+                ctx.evaluations += 1
+                ctx.count('text_spellings:' + mname)
+                ctx.nontriv((repr(vals[i]), repr(vals[j]), mname, wname))
+                if hs[i] == hs[j]:
+                    ctx.violate({'a': ascii(vals[i]), 'b': ascii(vals[j]), 'mode': mname, 'scenario': wname}, 'same hash although the two texts are different')
+
+
 def run(ctx, impl_only=False):
     findings = {f['id']: f for f in core.load_findings(ID) if f.get('status') == 'open'}
     P = pool(ctx)
@@ -251,6 +280,7 @@ def run(ctx, impl_only=False):
     ordered_non_sequences(ctx)
     shared_table(ctx)
     instants(ctx)
+    text_spellings(ctx)
     # ---- boundary witnesses
     from deepdiff import DeepHash, DeepDiff
     def h(v, **kw):
